@@ -400,6 +400,19 @@ func run(c *harness.Ctx, i int) {
 				}
 			} else if len(files) > 0 {
 				hostile += "+seed-overwritten"
+				// half of the time the overwritten stretch starts at a chunk of zeros, if the blob has one (what is
+				// written there to repair it is nothing but zeros), and the seeds change before the first job
+				var zeroStarts []int
+				for _, ch := range idx.Chunks {
+					if z := blob[ch.Start : ch.Start+ch.Size]; bytes.Equal(z, make([]byte, len(z))) {
+						zeroStarts = append(zeroStarts, int(ch.Start))
+					}
+				}
+				if len(zeroStarts) > 0 && rng.Intn(2) == 0 {
+					at = zeroStarts[rng.Intn(len(zeroStarts))]
+					hostile += "-at-zeros"
+				}
+				midRunAtFeeder = rng.Intn(2) == 0
 				midRun = func() {
 					for _, f := range files {
 						if fh, err := os.OpenFile(f, os.O_WRONLY, 0); err == nil {
